@@ -37,6 +37,9 @@ def _scalar_class(k):
     return "generic"
 
 
+BETA = 0x7AE96A2B657C07106E64479EAC3434E99CF0497512F58995C1396C28719501EE  # primitive cube root of unity mod p
+
+
 def check_law(case):
     import bits.ecmath as em
 
@@ -46,6 +49,11 @@ def check_law(case):
     if op == "add":
         a, b = case["a"], case["b"]
         A, B = _pt(a), _pt(b)
+        if case.get("endo") and A is not None:
+            # B = (beta^e * x, +-y): a different curve point sharing A's y (or its negation) - exercises comparisons that
+            # look at one coordinate only
+            B = (pow(BETA, case["endo"], P) * A[0] % P, (-A[1]) % P if case.get("negy") else A[1])
+            cls.append("nt:pair-same-or-negated-y-different-x")
         if A is None or B is None:
             kind = "identity"
         elif A == B:
@@ -224,8 +232,10 @@ def law_cases(draw):
     s = gen.scalars_any()
     if op == "add":
         a = draw(s)
-        rel = draw(st.sampled_from(["same", "neg", "zero", "other", "other"]))
+        rel = draw(st.sampled_from(["same", "neg", "zero", "other", "other", "endo"]))
         b = a if rel == "same" else (N - a % N) if rel == "neg" else 0 if rel == "zero" else draw(s)
+        if rel == "endo":
+            return {"op": op, "a": a if a % N else 1, "b": 1, "endo": draw(st.sampled_from([1, 2])), "negy": draw(st.booleans())}
         if draw(st.booleans()):
             a, b = b, a
         return {"op": op, "a": a, "b": b}
@@ -269,7 +279,7 @@ def enum_keygen(tier):
 def targets(tier):
     return [
         Target("law-secp", check_law, strategy=lambda tier: law_cases(), budget={"quick": 640, "thorough": 10000},
-               required=["nt:pair-identity", "nt:pair-doubling", "nt:pair-inverse", "nt:scalar-boundary", "nt:identity-distrib", "nt:identity-assoc", "nt:off-curve"]),
+               required=["nt:pair-identity", "nt:pair-doubling", "nt:pair-inverse", "nt:pair-same-or-negated-y-different-x", "nt:scalar-boundary", "nt:identity-distrib", "nt:identity-assoc", "nt:off-curve"]),
         Target("law-small", check_small, enumerate_=enum_small, exhaustive=True),
         Target("privkey", check_privkey, strategy=lambda tier: privkey_cases(), budget={"quick": 1500, "thorough": 30000},
                required=["nt:invalid-len", "nt:invalid-range", "nt:valid-boundary-or-leading-zero"]),
